@@ -151,75 +151,7 @@ def check(prog, res, tier):
         res.add(runs_p.judge('C10.d', 'print_exception_details prints the record number of the error', func_where(pfi),
                              "print(f'Error detected in record {err.record_number}')", chk_p, rule='C10.d.report',
                              unknown_ok=benign_unknown))
-    res.add(_cli_handler_ob(prog, res))
+    from .tools import cli_error_obs
+    for ob in cli_error_obs(prog, res, 'report'):
+        res.add(ob)
 
-
-def _cli_handler_ob(prog, res):
-    """C10.d: every handler of the library error in the command-line tools hands the caught error to the operator report
-    (a who-must-call rule over the resolved names; the report itself is C10.d.report)."""
-    import ast
-    from ..report import Ob, PROVED, REFUTED, UNDECIDED
-    ob = Ob('C10.d', 'every command-line handler of the library error reports it through print_exception_details(err)',
-            'cardutil/cli/*.py', 'except MciIpmDataError as err: print_exception_details(err)', rule='C10.d.cli')
-    if not prog.has_func('cli.print_exception_details'):
-        ob.verdict, ob.detail = UNDECIDED, 'cli.print_exception_details not found'
-        return ob
-    report = prog.func('cli.print_exception_details')
-    base = prog.cls('CardutilError')
-    sites, bad, unsure = [], [], []
-    for mname, mod in sorted(prog.modules.items()):
-        if not mname.startswith('cardutil.cli'):
-            continue
-        for node in ast.walk(mod.tree):
-            if not isinstance(node, ast.ExceptHandler) or node.type is None:
-                continue
-            types = node.type.elts if isinstance(node.type, ast.Tuple) else [node.type]
-            lib = False
-            for t in types:
-                r = prog.resolve_name(mod, t.id) if isinstance(t, ast.Name) else None
-                if r and r[0] == 'class' and (r[1] is base or r[1].is_subclass_of(base)):
-                    lib = True
-            if not lib:
-                continue
-            where = f'{mod.path}:{node.lineno}'
-            sites.append(where)
-            ok, handed_on = False, False
-
-            def reports(fnode, mod_, param, depth=0):
-                """does the function body call the operator report on its parameter `param` (directly or one call deeper)?"""
-                for c in ast.walk(fnode):
-                    if isinstance(c, ast.Call) and isinstance(c.func, ast.Name) and any(isinstance(a, ast.Name) and a.id == param for a in c.args):
-                        r_ = prog.resolve_name(mod_, c.func.id)
-                        if r_ and r_[0] == 'func' and r_[1] is report:
-                            return True
-                        if r_ and r_[0] == 'func' and depth < 2:
-                            idx = [i for i, a in enumerate(c.args) if isinstance(a, ast.Name) and a.id == param][0]
-                            ps = [a.arg for a in r_[1].node.args.args]
-                            if idx < len(ps) and reports(r_[1].node, r_[1].module, ps[idx], depth + 1):
-                                return True
-                return False
-            for st in node.body:
-                if isinstance(st, ast.Raise):
-                    ok = True          # not swallowed: the error goes on to the caller
-                    break
-                if isinstance(st, (ast.Return, ast.Continue, ast.Break)):
-                    break
-                wrapper = ast.Module(body=[st], type_ignores=[])
-                if node.name and reports(wrapper, mod, node.name):
-                    ok = True
-                    break
-                if node.name and any(isinstance(c, ast.Name) and c.id == node.name for c in ast.walk(st)):
-                    handed_on = True       # used in some other way (printed directly, passed on, stored): not followed
-            if not ok:
-                (unsure if handed_on else bad).append(where)
-    res.count(evaluations=len(sites))
-    if not sites:
-        ob.verdict, ob.detail = UNDECIDED, 'no handler of the library error found in the command-line tools (3 on the pinned tree)'
-    elif bad:
-        ob.verdict, ob.detail, ob.witness = REFUTED, (f'handler at {bad[0]} catches the library error without calling '
-                                                      f'print_exception_details on it: the operator never sees the record number'), {'handlers': bad}
-    elif unsure:
-        ob.verdict, ob.detail = UNDECIDED, f'handler at {unsure[0]} uses the caught error in a way that is not seen to reach print_exception_details'
-    else:
-        ob.verdict, ob.detail = PROVED, f'{len(sites)} handlers: {sites}'
-    return ob
